@@ -190,7 +190,7 @@ func main() {
 			"paths": st.Paths, "paths_ok": st.PathsOK, "steps": st.Steps, "queries": st.Queries, "solver_s": st.SolverS,
 			"unknowns": st.Unknowns, "forks": st.Forks, "max_pc": st.MaxPC, "obligations": st.Obligations,
 			"discharged": st.Discharged, "obligation_kinds": obs, "reach": st.Reach, "funcs": funcs,
-			"solver_errors": st.SolverErrors, "portfolio_queries": st.AltQueries, "portfolio_decided": st.AltDecided, "load_s": loadS, "solver": *solver,
+			"solver_errors": st.SolverErrors, "folded_asserts": st.FoldedAsserts, "paths_symbolic": st.PathsSymbolic, "portfolio_queries": st.AltQueries, "portfolio_decided": st.AltDecided, "load_s": loadS, "solver": *solver,
 		}
 		results = append(results, res)
 		if *verbose > 0 {
